@@ -69,6 +69,9 @@ func ipOracle(s *sut, c ipCase) (viol string, verdict Verdict, self string) {
 	if c.Req.XFF != "" || c.Req.XRI != "" {
 		what += fmt.Sprintf(" with client-supplied X-Forwarded-For=%q X-Real-IP=%q", c.Req.XFF, c.Req.XRI)
 	}
+	if len(c.Req.Extra) > 0 {
+		what += fmt.Sprintf(" with further client-supplied headers %q", c.Req.Extra)
+	}
 	if verdict == MustRefuse {
 		if v := s.notServed(c.Req, resp, before, 0); v != "" {
 			return what + ": request " + v, verdict, ""
@@ -116,6 +119,7 @@ func genIPCase(rt *rapid.T, pol Policy, forge bool) ipCase {
 	if forge {
 		c.Req.XFF, c.Req.XRI = genForged(rt, pol)
 	}
+	c.Req.Extra = genClientHeaders(rt, c.Token)
 	return c
 }
 
@@ -138,12 +142,15 @@ func TestC10IPPolicy(t *testing.T) {
 	sub := lab.Sub("admin-ip-policy", "rapid: allow and deny lists of 0..5 well-formed entries each (IPv4/IPv6 CIDRs of 17 prefix lengths incl. /0 /31 /32 /127 /128, host bits set, upper case, single addresses; "+
 		"overlapping by a small address pool and by deny entries carved out of allow entries) x TCP peer biased to first/last/inner address of a listed prefix and the addresses just outside, "+
 		"spelled plain, IPv4-mapped, zone-suffixed or junk x optional auth_token (presented exact or near-miss) x request (all endpoints incl. /v1/health, valid mutating bodies, odd methods, near-miss paths) "+
+		"x (5 of 8 cases) 1..4 further client-supplied field lines from a table of 45 header names (Accept in 23 spellings incl. JSON / +json / q-values / wildcards / empty, Content-Type, User-Agent, Accept-*, Origin, conditional and hop-by-hop headers, "+
+		"the token in Cookie / X-Api-Key / Proxy-Authorization, method and URL override headers, Forwarded / Via / True-Client-IP and other address headers): none of them may change the verdict; "+
 		"x (half of the cases) forged X-Forwarded-For / X-Real-IP / both drawn from the same edge-biased address generator or junk; fresh balancer + NewMux per request; "+
 		"oracle = reference policy on the TCP peer only (net/netip, IPv4-mapped unmapped): refused peer => non-2xx, backend multiset and round_robin behaviour unchanged, nothing revealed; "+
 		"allowed canonical peer => not 403 whatever the headers say, and 401 iff the token is wrong; non-trivial = the peer lies inside a listed prefix or a forged header's verdict differs from the peer's")
 	sub.NontrivialFloor(0.30)
 	sub.Floor("verdict-must-refuse", 0.20)
 	sub.Floor("verdict-must-serve", 0.15)
+	sub.Floor("other-client-headers", 0.30)
 	openHeaders := lab.Open(findingHeaders)
 	if !openHeaders {
 		sub.Floor("forged-verdict-differs", 0.05)
@@ -198,6 +205,7 @@ func TestC10IPPolicy(t *testing.T) {
 		if c.Token != "" {
 			labels = append(labels, "with-token")
 		}
+		labels = append(labels, clientHeaderLabels(c.Req)...)
 		sub.Case(c, inside || differs, labels...)
 		if self != "" {
 			rt.Fatalf("harness self-check: %+v: %s", c, self)
@@ -263,6 +271,7 @@ func TestC10MalformedList(t *testing.T) {
 		if len(pol.Allow)+len(pol.Deny) == nbad {
 			labels = append(labels, "only-malformed-entries")
 		}
+		labels = append(labels, clientHeaderLabels(c.Req)...)
 		if stripped {
 			labels = []string{"open-finding:malformed-entries-stripped", "kind-" + c.Req.Kind}
 		}
